@@ -164,7 +164,11 @@ def run_job(job, keep_graph=False):
     clock = job.get("clock", "SIM")
     gran = job.get("gran", "G1")
     policy = job.get("policy", "prio")
-    S = vs.new_scheduler(policy=policy, prio=priorities(spec), line_targets=_line_targets(ra) if gran == "G2" else None, max_steps=job.get("max_steps", 4000))
+    prio = priorities(spec)
+    if policy == "wf":  # workers first: the user thread only runs when no worker can (the mirror image of P-user)
+        prio["user"] = 99
+        policy = "prio"
+    S = vs.new_scheduler(policy=policy, prio=prio, line_targets=_line_targets(ra) if gran == "G2" else None, max_steps=job.get("max_steps", 4000))
     trace = []
     vtime = ra.time  # the patched VTime instance
     jit_step = bool(job.get("jit_step", False))
@@ -275,6 +279,7 @@ def run_job(job, keep_graph=False):
         sig=hash(tuple(S.sig)) & 0xFFFFFFFF,
         episodes=out["episodes"],
         trace=trace,
+        debug_points=S.debug,
         init_rng={n: onp.asarray(gs0.rng[n]).astype(onp.uint32).tolist() for n in nodes},
         wall=_time.time() - t0,
     )
